@@ -24,6 +24,8 @@ type opFacts struct {
 	Abstract          bool // a field of interface/union type (other than node) is selected
 	VarDefault        bool // a variable declares a default value
 	VarNamedID        bool // a client variable is called `id`, like the executor's own $id of child steps
+	DirectiveOnHelper bool // a client-selected field named id/__typename carries a directive (@skip/@include)
+	FragDirectiveVar  bool // a variable is used inside a directive of an inline fragment / fragment spread
 }
 
 func analyseOp(schema *ast.Schema, doc *ast.QueryDocument, op *ast.OperationDefinition) opFacts {
@@ -37,16 +39,18 @@ func analyseOp(schema *ast.Schema, doc *ast.QueryDocument, op *ast.OperationDefi
 		}
 	}
 	spreads := map[string]int{}
-	var dirs func(ds ast.DirectiveList)
-	dirs = func(ds ast.DirectiveList) {
+	var dirs func(ds ast.DirectiveList) bool
+	dirs = func(ds ast.DirectiveList) (usesVariable bool) {
 		for _, d := range ds {
 			f.Directive = true
 			for _, a := range d.Arguments {
 				if a.Value != nil && a.Value.Kind == ast.Variable {
 					f.DirectiveVariable = true
+					usesVariable = true
 				}
 			}
 		}
+		return usesVariable
 	}
 	var walk func(ss ast.SelectionSet, root bool)
 	var keysAt func(ss ast.SelectionSet, keys map[string]string, names map[string]bool)
@@ -90,6 +94,9 @@ func analyseOp(schema *ast.Schema, doc *ast.QueryDocument, op *ast.OperationDefi
 			switch s := s.(type) {
 			case *ast.Field:
 				dirs(s.Directives)
+				if (s.Name == "id" || s.Name == "__typename") && len(s.Directives) > 0 {
+					f.DirectiveOnHelper = true
+				}
 				if root && s.Name == "__typename" {
 					f.RootTypename = true
 				}
@@ -108,10 +115,14 @@ func analyseOp(schema *ast.Schema, doc *ast.QueryDocument, op *ast.OperationDefi
 				}
 				walk(s.SelectionSet, false)
 			case *ast.InlineFragment:
-				dirs(s.Directives)
+				if dirs(s.Directives) {
+					f.FragDirectiveVar = true
+				}
 				walk(s.SelectionSet, root)
 			case *ast.FragmentSpread:
-				dirs(s.Directives)
+				if dirs(s.Directives) {
+					f.FragDirectiveVar = true
+				}
 				spreads[s.Name]++
 				if spreads[s.Name] > 1 {
 					f.MultiSpread = true
@@ -226,7 +237,8 @@ type c01ClassDef struct {
 }
 
 var c01Classes = []c01ClassDef{
-	{"directive-variable", func(o opFacts, d dataFacts, sh bool) bool { return o.DirectiveVariable }, []string{"invalid-subrequest/undefined-variable"}},
+	{"directive-variable-on-kept-fragment", func(o opFacts, d dataFacts, sh bool) bool { return o.FragDirectiveVar }, []string{"invalid-subrequest/undefined-variable"}},
+	{"skipped-helper-id", func(o opFacts, d dataFacts, sh bool) bool { return o.DirectiveOnHelper }, []string{"error/missing-id", "wrong-data"}},
 	{"directive-on-flattened-selection", func(o opFacts, d dataFacts, sh bool) bool { return o.Directive }, []string{"wrong-data"}},
 	{"root-typename", func(o opFacts, d dataFacts, sh bool) bool { return o.RootTypename }, []string{"error/internal-service-url"}},
 	{"aliased-helper", func(o opFacts, d dataFacts, sh bool) bool { return o.AliasedHelper }, []string{"error/missing-id", "invalid-subrequest/field-conflict", "wrong-data"}},
@@ -236,7 +248,6 @@ var c01Classes = []c01ClassDef{
 	{"node-root-fragment", func(o opFacts, d dataFacts, sh bool) bool { return o.NodeRoot }, []string{"invalid-subrequest/unknown-field", "error/internal-service-url", "wrong-data", "error/missing-id"}},
 	{"abstract-type-selection", func(o opFacts, d dataFacts, sh bool) bool { return o.Abstract }, []string{"invalid-subrequest/unknown-field", "wrong-data", "error/missing-id"}},
 	{"variable-named-id", func(o opFacts, d dataFacts, sh bool) bool { return o.VarNamedID }, []string{"invalid-subrequest/other", "wrong-data", "invalid-subrequest/undefined-variable"}},
-	{"var-default", func(o opFacts, d dataFacts, sh bool) bool { return o.VarDefault }, []string{"wrong-data"}},
 	{"null-in-object-list", func(o opFacts, d dataFacts, sh bool) bool { return d.NullObjElems }, []string{"error/null-list-entry", "wrong-data"}},
 }
 
